@@ -808,8 +808,11 @@ switch_to(Thr *next)
 	G.cur     = next;
 	G.run_len = 0;
 	sched_trace(EV_SWITCH, (uint32_t) next->id, 0);
+	// decide before handing over: once `next` runs it may mark this thread
+	// done (sim_kill_daemons) while the OS still has it between the two lines
+	bool exiting = self->done;
 	sem_post(&next->sem);
-	if (self->done)
+	if (exiting)
 		return;
 	real_sem_wait(&self->sem);
 }
